@@ -377,3 +377,63 @@ def permute_function():
         if bad in body: raise ExtractionError("permuteDimensions(): unhandled C++ construct '%s' left after the rewrite rules" % bad)
     hdr = "void permuteDimensions(const size_t* permutation, size_t permutation_size)"
     return Extracted("permuteDimensions", hdr, body, r, PERMUTE_H, X.find_loops(body))
+
+# ---------------------------------------------------------------------------
+# splinetable::grideval (grideval.h) + the C helpers it drives (splineutil.c): exact execution (C17)
+GRIDEVAL_H = "include/photospline/detail/grideval.h"
+GRIDEVAL_PRELUDE = r'''
+#include <stdint.h>
+#include <stddef.h>
+#include <stdbool.h>
+#include <assert.h>
+/* only the fields the extracted code touches; cholmod objects are created by the interpreter's hooks (assumed
+ * contract of cholmod: exact sparse-matrix algebra) */
+typedef struct cholmod_common_struct { int status; } cholmod_common;
+typedef struct cholmod_sparse_struct { size_t nrow, ncol; } cholmod_sparse;
+typedef struct cholmod_dense_struct { size_t nrow, ncol; void* x; } cholmod_dense;
+typedef struct cholmod_triplet_struct { size_t nrow, ncol, nzmax, nnz; void *i, *j, *x; } cholmod_triplet;
+#define CHOLMOD_REAL 1
+#define CHOLMOD_OK 0
+struct ndsparse { size_t rows; size_t ndim; double* x; unsigned int** i; unsigned int* ranges; };
+void* calloc(size_t, size_t); void* realloc(void*, size_t); void free(void*);
+int cholmod_l_start(cholmod_common*); int cholmod_l_finish(cholmod_common*);
+cholmod_dense* cholmod_l_allocate_dense(size_t, size_t, size_t, int, cholmod_common*); cholmod_sparse* cholmod_l_dense_to_sparse(cholmod_dense*, int, cholmod_common*);
+int cholmod_l_free_dense(cholmod_dense**, cholmod_common*); int cholmod_l_free_sparse(cholmod_sparse**, cholmod_common*); int cholmod_l_free_triplet(cholmod_triplet**, cholmod_common*);
+cholmod_sparse* cholmod_l_transpose(cholmod_sparse*, int, cholmod_common*); cholmod_sparse* cholmod_l_ssmult(cholmod_sparse*, cholmod_sparse*, int, int, int, cholmod_common*);
+cholmod_triplet* cholmod_l_allocate_triplet(size_t, size_t, size_t, int, int, cholmod_common*); cholmod_sparse* cholmod_l_triplet_to_sparse(cholmod_triplet*, size_t, cholmod_common*);
+cholmod_triplet* cholmod_l_sparse_to_triplet(cholmod_sparse*, cholmod_common*);
+uint32_t ndim; uint32_t* order; double** knots; uint64_t* nknots; uint64_t* naxes; uint64_t* strides; float* coefficients;
+int vp_thrown;
+/* C++ class photospline::ndsparse (splinetable.h): constructor and insertEntry, implemented by the interpreter from
+ * their (text-checked) definitions */
+struct ndsparse* vp_ndsparse_new(size_t rows, size_t ndim);
+void vp_ndsparse_insertEntry(struct ndsparse* nd, double value, unsigned int* indices);
+'''
+
+def check_ndsparse_class():
+    s = X.strip_comments(src("include/photospline/splinetable.h"))
+    a = re.search(r"void insertEntry\(double value, unsigned int\* indices\)\{\s*if\(!\(entriesInserted<rows\)\)\s*throw std::runtime_error\(\"[^\"]*\"\);\s*x\[entriesInserted\]=value;\s*"
+                  r"for\(size_t j=0; j<ndim; j\+\+\)\{\s*i\[j\]\[entriesInserted\] = indices\[j\];\s*ranges\[j\] = std::max\(ranges\[j\],i\[j\]\[entriesInserted\]\+1\);\s*\}\s*entriesInserted\+\+;\s*\}", s)
+    b = re.search(r"ndsparse\(size_t rows, size_t ndim\)\{\s*if\(!ndim\)\s*throw std::logic_error\(\"[^\"]*\"\);\s*if\(!rows\)\s*throw std::logic_error\(\"[^\"]*\"\);\s*if\(ndsparse_allocate\(this,rows,ndim\)!=0\)\s*throw std::bad_alloc\(\);\s*entriesInserted=0;\s*\}", s)
+    if not (a and b): raise ExtractionError("class photospline::ndsparse (constructor / insertEntry) changed: the interpreter's implementation is out of date")
+
+def grideval_function():
+    s = src(GRIDEVAL_H)
+    start, header, body, end = X.find_function(s, r"splinetable<Alloc>::grideval\s*\(")
+    r = X.Rules(); r.counts["R1_member"] = 1
+    body = X.strip_comments(body)
+    body = r.sub("R19_static_assert", r"static_assert\(.*?\"\s*\);", "", body, must_fire=True, flags=re.S)
+    body = r.sub("R19_typedef", r"typedef typename DoubleContCont::value_type DoubleCont;", "", body, must_fire=True)
+    body = r.sub("R7_throw", r"throw\(std::logic_error\(.*?\)\);", "{ vp_thrown = 1; return NULL; }", body, must_fire=True, flags=re.S)
+    body = r.sub("R18_size", r"\bcoords\.size\(\)", "coords_size", body, must_fire=True)
+    body = r.sub("R15_unique_ptr_obj", r"std::unique_ptr<ndsparse>\s+nd\(new ndsparse\(nnz,\s*ndim\)\);", "struct ndsparse* nd = vp_ndsparse_new(nnz, ndim); if (vp_thrown) return NULL;", body, must_fire=True)
+    body = r.sub("R20_vector_uint", r"std::vector<unsigned int>\s+indices\(ndim\);", "unsigned int indices[ndim + 1];", body, must_fire=True)
+    body = r.sub("R21_method_call", r"nd->insertEntry\(coefficients\[i\],\s*indices\.data\(\)\);", "vp_ndsparse_insertEntry(nd, coefficients[i], indices); if (vp_thrown) return NULL;", body, must_fire=True)
+    body = r.sub("R18_ref_container", r"const DoubleCont &coord_vec = coords\[i\];", "const double* coord_vec = coords[i]; size_t coord_vec_size = coords_sizes[i];", body, must_fire=True)
+    body = r.sub("R18_data", r"coord_vec\.data\(\)", "coord_vec", body, must_fire=True)
+    body = r.sub("R18_inner_size", r"coord_vec\.size\(\)", "coord_vec_size", body, must_fire=True)
+    body = r.sub("R15_get", r"nd\.get\(\)", "nd", body, must_fire=True)
+    for bad in ("std::", ".size()", ".data()", "unique_ptr"):
+        if bad in body: raise ExtractionError("grideval(): unhandled C++ construct '%s' left after the rewrite rules" % bad)
+    hdr = "struct ndsparse* grideval(const double* const* coords, size_t coords_size, const size_t* coords_sizes)"
+    return Extracted("grideval", hdr, body, r, GRIDEVAL_H, X.find_loops(body))
